@@ -136,7 +136,7 @@ PROPS = {
             {"name": "store_equals_batches_in_creation_order", "bin": "replay_c10", "crate": "replay", "thorough_seeds": 64, "tiers": ("quick", "thorough"),
              "bound": "24 directed late-first histories + 4 directed drop-during-panic-unwinding histories + 400 seeded random histories: 1..9 batches of 0..5 operations (wide-column put/delete and key-of-set insert/remove over 1..3 keys x 1..3 elements, so that one batch often stages several operations on one slot), submitted out of creation order from 1..3 threads, 1..4 serializer workers, random serialization delays and physical grouping; after drop the recording store must equal applying the batches in creation order, each exactly once (real code, native execution, thread schedule not controlled)"},
             {"name": "real_backends_behind_the_real_write_manager", "bin": "replay_c10_db", "crate": "replay_db", "release": False, "tiers": ("quick", "thorough"), "thorough_seeds": 6,
-             "bound": "the real WriteBehind in front of the REAL RocksDB and Fjall: 11 manager lifetimes per store and seed (mixed traffic, lifetimes that ONLY remove, put-then-remove of a never-stored key across batches of one lifetime, a unit-keyed unit-discriminant column whose encoded key is empty), 1..3 serializer workers; after every lifetime the store is closed, reopened and read through a fresh engine: it must hold exactly the batches applied in creation order"},
+             "bound": "the real WriteBehind in front of the REAL RocksDB and Fjall: 11 manager lifetimes per store and seed (mixed traffic, lifetimes that ONLY remove, put-then-remove of a never-stored key across batches of one lifetime, a unit-keyed unit-discriminant column whose encoded key is empty) plus 9 lifetimes of key-of-set traffic (u32 members and a unit-element column whose member encoding is empty; lifetimes that only remove), 1..3 serializer workers; after every lifetime the store is closed, reopened and read through a fresh engine: it must hold exactly the batches applied in creation order"},
         ],
         "witness": witness.c10,
         "assumptions": [
@@ -192,7 +192,7 @@ PROPS = {
         ],
         "native": [
             {"name": "roundtrip_types_not_under_contract", "bin": "replay_c12", "crate": "replay", "tiers": ("quick", "thorough"),
-             "bound": "exhaustive 8/16-bit integers, every 7-bit varint boundary +-1 and 64 seeded values per wider width, nested through the generic constructors; String/PathBuf, BTree*/Hash*/VecDeque/LinkedList, SmallVec, BitVec (5 storage types x 2 bit orders x 17 lengths x 3 head offsets), derive fixtures; interned handles (Interned<String|str|PathBuf|Path|Vec<u32>|[u32]>, repeats, equal content under different handle types in one session in every order, nested handles; decoded with a FRESH interner and with the writer's): decode(encode(v)) == v and exact consumption, on the real crates with the optional features on"},
+             "bound": "exhaustive 8/16-bit integers, every 7-bit varint boundary +-1 and 64 seeded values per wider width, nested through the generic constructors; String/PathBuf (incl. paths that are not valid UTF-8: refusal or exact round trip), BTree*/Hash*/VecDeque/LinkedList, derived enums with 130 / 300 variants, SmallVec, BitVec (5 storage types x 2 bit orders x 17 lengths x 3 head offsets), derive fixtures; interned handles (Interned<String|str|PathBuf|Path|Vec<u32>|[u32]>, repeats, equal content under different handle types in one session in every order, nested handles; decoded with a FRESH interner and with the writer's): decode(encode(v)) == v and exact consumption, on the real crates with the optional features on"},
             {"name": "range_inclusive_exhausted_flag", "bin": "replay_c12", "crate": "replay", "tiers": ("quick", "thorough"), "args": ["--only", "range_inclusive_exhausted"], "thorough_seeds": 1,
              "bound": "3 directed inputs: RangeInclusive<u32|i64|char> iterated to exhaustion (front / drained / back) -- decode(encode(v)) == v on the real crate (known finding F4)"},
         ],
@@ -210,7 +210,7 @@ PROPS = {
             "HashMap / HashSet: Encode and Decode under RELATIONAL contracts (impl headers rewritten to MapEncode/MapDecode/SetEncode/SetDecode -- rewrite HDR -- because the image follows the iteration order and is not a function of the value): encode appends the count and the entry images in some duplicate-free enumeration of the keys; decode on the image of any entry sequence s consumes exactly it and returns the collection built by inserting entries image-equal to s in order; lemma_hashmap_roundtrip / lemma_hashset_roundtrip conclude view equality when element images are injective. Trusted: with_capacity_and_hasher returns an empty collection; obeys_key_model::<K>() and builds_valid_hashers::<S>() are preconditions (Hash/Eq of the key type and the hasher are lawful)",
             "Cow: Encode and Decode under their own contract traits (CowEncode: appends the image of what the Cow dereferences to; CowDecode: returns Cow::Owned of a value decoded by T::Owned) -- the two impls have different bounds (T: Encode vs T::Owned: Decode) and meet only where borrowed and owned form have the same image (lemma_cow_pairs: str/String, [T]/Vec<T>). RefCell: Encode/Decode under the ordinary contracts (std model: borrow() hands out a guard that dereferences to the held value; a RefCell that is mutably borrowed panics, no bytes are produced)",
             "not under contract: Path/PathBuf/OsStr, LinkedList/BTreeMap/BTreeSet/DashMap/DashSet (no iterator models), atomics (vstd specifies std atomics with nondeterministic loads -- an atomic's image is not a function of a value), [T;N]::decode (MaybeUninit), SmallVec, BitVec",
-            "derive macros: verified on the fixture types of fixtures/derive_fix (named/tuple/unit/generic structs, enums with unit/tuple/struct variants, generic enum, skip on first/middle/last positions), expanded on every run by the real proc-macro crate; other shapes are covered only in so far as the macro treats them uniformly",
+            "derive macros: verified on the fixture types of fixtures/derive_fix (named/tuple/unit/generic structs, enums with unit/tuple/struct variants, generic enum, skip on first/middle/last positions, an enum with 130 variants whose tags cross the one-byte LEB128 boundary), expanded on every run by the real proc-macro crate; other shapes are covered only in so far as the macro treats them uniformly",
             "rule R13: alpha-renaming of the derive's method type parameter (__E/__D -> E/D)",
         ],
     },
